@@ -231,8 +231,8 @@ def decorations(fmt, plain):
     flip = str.lower if fmt == "base32" else str.upper
     which = "lower_one" if fmt == "base32" else "upper_one"
     for pos in range(n):
-        if flip(plain[pos]) != plain[pos]:
-            yield which, pos, plain[:pos] + flip(plain[pos]) + plain[pos + 1 :]
+        # (a digit has no other case: the case is then the plain rendering; kept so that the seed never changes the case count)
+        yield which, pos, plain[:pos] + flip(plain[pos]) + plain[pos + 1 :]
     yield "lower_all", 0, plain.lower()
     yield "upper_all", 0, plain.upper()
     yield "grouped4_blank", 0, " ".join(plain[i : i + 4] for i in range(0, n, 4))
@@ -273,7 +273,7 @@ def work(task):
                         for k, desc in found:
                             acc.violation(k, desc, case)
                         acc.outcome("violation" if found else f"ok:{name}:{form}")
-                        if n == 20 and digits == 8 and period == 30 and d == 0 and form in ("aware+0530", "float.75", "int"):
+                        if n == 20 and digits == 8 and period == 30 and d == -1 and (name, form) in (("2^32", "aware+0530"), ("2^40", "float.75"), ("k1", "naive_us")):
                             acc.sample(case)
                     acc.axis("time_base", name)
                 acc.axis("period", period)
